@@ -714,12 +714,53 @@ def _remove_stmt(root: ast.AST, st: ast.stmt) -> None:
                 return
 
 
+def _namedtuples_as_tuples(tree: ast.Module) -> int:
+    """`class P(NamedTuple): a: int; b: int` ... `P(x, y)` / `P(a=x, b=y)` is the tuple `(x, y)` for every use that
+    unpacks or indexes it (field access by name is left alone)."""
+    classes: dict[str, list[str]] = {}
+    for st in tree.body:
+        if isinstance(st, ast.ClassDef) and any(_dotted(b) in ("NamedTuple", "typing.NamedTuple") for b in st.bases):
+            fields = [b.target.id for b in st.body if isinstance(b, ast.AnnAssign) and isinstance(b.target, ast.Name)]
+            if fields and not any(isinstance(b, ast.FunctionDef) for b in st.body):
+                classes[st.name] = fields
+    if not classes:
+        return 0
+    # a class whose instances are read by field name anywhere is left as it is
+    field_reads = {n.attr for n in ast.walk(tree) if isinstance(n, ast.Attribute)}
+    done = 0
+
+    class T(ast.NodeTransformer):
+        def visit_Call(self, node):  # noqa: N802
+            self.generic_visit(node)
+            nonlocal done
+            name = node.func.id if isinstance(node.func, ast.Name) else None
+            if name in classes and not (set(classes[name]) & field_reads):
+                fields = classes[name]
+                if any(isinstance(a, ast.Starred) for a in node.args) or any(k.arg is None for k in node.keywords):
+                    return node
+                vals = list(node.args)
+                kw = {k.arg: k.value for k in node.keywords}
+                for f in fields[len(vals):]:
+                    if f not in kw:
+                        return node
+                    vals.append(kw[f])
+                if len(vals) != len(fields):
+                    return node
+                done += 1
+                return ast.copy_location(ast.Tuple(elts=vals, ctx=ast.Load()), node)
+            return node
+    T().visit(tree)
+    return done
+
+
 def apply(tree: ast.Module, module: str = "") -> list[str]:
     """Dissolve transparent helpers of `tree` into their callers (in place). -> names inlined (one per call site)."""
     if _has_walrus(tree):
         for n in ast.walk(tree):
             if isinstance(n, ast.FunctionDef):
                 n.body = _desugar_walrus(n.body)
+        ast.fix_missing_locations(tree)
+    if _namedtuples_as_tuples(tree):
         ast.fix_missing_locations(tree)
     inl = _Inliner(tree, module)
     inl.run()
